@@ -852,15 +852,46 @@ func run(dir string, o *out, r *rng, opt options) (progResult, error) {
 		kinds = append(kinds, k)
 	}
 	sort.Strings(kinds)
-	for i := 0; i < opt.weakTransfer && len(kinds) > 0; i++ {
-		l := byKind[kinds[i%len(kinds)]]
-		rec := l[r.n(len(l))]
+	perKind := 0
+	if len(kinds) > 0 {
+		perKind = opt.weakTransfer / (5 * len(kinds))
+		if perKind < 2 {
+			perKind = 2
+		}
+	}
+	type trial struct {
+		rec     escape.VerifMonoRecord
+		variant int
+	}
+	var trials []trial
+	for _, k := range kinds {
+		l := byKind[k]
+		// a random selection of perKind records of this kind, each tried in all three variants
+		idx := make([]int, len(l))
+		for j := range idx {
+			idx[j] = j
+		}
+		for j := len(idx) - 1; j > 0; j-- {
+			q := r.n(j + 1)
+			idx[j], idx[q] = idx[q], idx[j]
+		}
+		for j := 0; j < len(idx) && j < 2*perKind; j++ {
+			for v := 0; v < 4; v++ {
+				if v < 3 && j >= perKind {
+					continue // the cheap "enlarged by foreign graphs" variant is tried on twice as many records
+				}
+				trials = append(trials, trial{l[idx[j]], v})
+			}
+		}
+	}
+	for _, tr := range trials {
+		rec := tr.rec
 		if !isInv(rec.Pre) {
 			continue
 		}
 		lo, hi := rec.Pre, rec.Pre
 		variant := "weakened"
-		switch (i / len(kinds)) % 3 {
+		switch tr.variant {
 		case 0:
 			lo = weaken(r, rec.Pre)
 		case 1:
@@ -877,6 +908,17 @@ func run(dir string, o *out, r *rng, opt options) (progResult, error) {
 				continue
 			}
 			hi = merged(rec.Pre, other)
+		case 3:
+			// merged with graphs of arbitrary functions of the program: a much larger graph whose additional part is
+			// unrelated to the instruction
+			variant = "enlarged"
+			hi = rec.Pre
+			for k := 0; k < 3; k++ {
+				other := pool[r.n(len(pool))].g
+				if isInv(other) {
+					hi = merged(hi, other)
+				}
+			}
 		}
 		if !isInv(lo) || !isInv(hi) || !le(lo, hi) {
 			o.stats["transfer_variant_skipped"]++
